@@ -117,6 +117,7 @@ Definition al := approx_list.
                 c["a"] = a = a + [a[-1] + 1.0]
             c["y"] = gens.values(rng, len(a))
             c["periodic"] = rng.random() < 0.5
+            c["flag_kind"] = rng.choice(["bool", "bool", "np_bool", "int", "zero_d"])       # how the caller happens to hold the flag
         elif op in ("ext_lin", "ext_const", "iext"):
             c["direction"] = direction or rng.choice(list(DIRS))
             if op == "iext":
@@ -180,7 +181,9 @@ Definition al := approx_list.
         op, n = c["op"], c["n"]
         try:
             if op == "append":
-                x, y = sau.append_one_sample(a, np.array(c["y"], dtype=float), make_periodic=c["periodic"])
+                fk_ = c.get("flag_kind", "bool")
+                flag = {"bool": c["periodic"], "np_bool": np.bool_(c["periodic"]), "int": int(c["periodic"]), "zero_d": np.asarray(c["periodic"])}[fk_]
+                x, y = sau.append_one_sample(a, np.array(c["y"], dtype=float), make_periodic=flag)
                 return {"x": x.tolist(), "y": y.tolist()}
             if op == "ov_lin":
                 return {"out": np.asarray(sau.oversample_linspace(a, n)).tolist()}
